@@ -151,6 +151,6 @@ def check(case):
 
 
 SUBCHECKS = [
-    Sub("chi2", check, strategy=lambda tier: case_strategy(), quick=6000, thorough=150000,
+    Sub("chi2", check, strategy=lambda tier: case_strategy(), quick=12000, thorough=800000,
         min_share={"path:none": 0.1, "path:some": 0.15, "path:all": 0.15, "k>=1": 0.3}),
 ]
